@@ -21,7 +21,7 @@ MTOL = (1e-7, 1e-9)                          # posterior / mll / elbo
 # which TLC predicts failures (MODEL-DRIFT lines) that the replay confirms.  When a fix lands in /repo add its family here so that the
 # model follows the code: "rq_alpha" (RQKernel.forward), "const_kernel" (ConstantKernel.forward), "call_diag" (Kernel.__call__ diag
 # heuristic), "multitask" (MultitaskKernel.forward repeat).
-REPAIRED = set(filter(None, os.environ.get("VERIF_C08_REPAIRED", "rq_alpha,const_kernel").split(",")))  # fix: commits for RQ alpha and ConstantKernel are in /repo
+REPAIRED = set(filter(None, os.environ.get("VERIF_C08_REPAIRED", "rq_alpha,const_kernel,call_diag").split(",")))  # fix: commits for RQ alpha and ConstantKernel are in /repo
 
 SITES = ["lengthscale_x1", "lengthscale_x2", "outputscale_full", "outputscale_diag", "rq_alpha_full", "rq_alpha_diag",
          "constant_mean", "linear_mean_weights", "linear_mean_bias", "noise", "const_kernel_full", "const_kernel_diag",
